@@ -24,15 +24,15 @@ type Finding struct {
 }
 
 type replayFile struct {
-	Property string     `json:"property"`
-	Kind     string     `json:"kind"` // violated | undecided
-	Config   string     `json:"config"`
-	Tags     []string   `json:"tags"`
-	GOOS     string     `json:"goos"`
-	GOARCH   string     `json:"goarch"`
-	Repo     string     `json:"repo"`
-	Obl      Obligation `json:"obligation"`
-	Diagnosis string    `json:"diagnosis"`
+	Property  string     `json:"property"`
+	Kind      string     `json:"kind"` // violated | undecided
+	Config    string     `json:"config"`
+	Tags      []string   `json:"tags"`
+	GOOS      string     `json:"goos"`
+	GOARCH    string     `json:"goarch"`
+	Repo      string     `json:"repo"`
+	Obl       Obligation `json:"obligation"`
+	Diagnosis string     `json:"diagnosis"`
 }
 
 func configsFor(tier string) []Config {
@@ -286,7 +286,10 @@ func decide(p *Property, runs []*configRun, findings []Finding, tier string, see
 		all = append(all, Obligation{Rule: "LOAD", Key: "unanalysed/" + u, Pos: u, Outcome: Undecided, Config: "all", Detail: "source file is not part of any analysed build configuration"})
 	}
 	// merge identical obligations across configurations
-	type mk struct{ rule, key, detail, pos string; out Outcome }
+	type mk struct {
+		rule, key, detail, pos string
+		out                    Outcome
+	}
 	merged := map[mk]*Obligation{}
 	var order []mk
 	cfgOf := map[mk][]string{}
@@ -425,21 +428,21 @@ func writeEvidence(p *Property, tier string, seed int64, outDir string, obls []O
 	}
 	level := p.Level
 	cov := map[string]any{
-		"obligations":       total,
-		"discharged":        discharged,
-		"checker_cmd":       fmt.Sprintf("/verif/bin/bipcheck -property %s -tier %s", p.ID, tier),
-		"trusted_base":      p.Trusted,
-		"explanation":       p.Explain,
-		"samples":           samples,
-		"rule":              "one obligation per (rule, construct, outcome, detail); identical obligations from different contexts/configurations are merged and their contexts listed",
-		"rules":             p.Rules,
-		"obligations_by_rule": ruleCounts,
-		"instance_counts":   counts,
-		"configurations":    cfgs,
-		"analysed":          analysed,
-		"unanalysed_files":  unanalysed,
+		"obligations":            total,
+		"discharged":             discharged,
+		"checker_cmd":            fmt.Sprintf("/verif/bin/bipcheck -property %s -tier %s", p.ID, tier),
+		"trusted_base":           p.Trusted,
+		"explanation":            p.Explain,
+		"samples":                samples,
+		"rule":                   "one obligation per (rule, construct, outcome, detail); identical obligations from different contexts/configurations are merged and their contexts listed",
+		"rules":                  p.Rules,
+		"obligations_by_rule":    ruleCounts,
+		"instance_counts":        counts,
+		"configurations":         cfgs,
+		"analysed":               analysed,
+		"unanalysed_files":       unanalysed,
 		"known_findings_matched": known,
-		"technique":         "static analysis: go/packages + go/types + go/ssa; gate reach sets (exact integer sets), abstract interpretation with loop summarisation over a bit-layout domain, effect index, dominance/def-use rules; nothing is executed",
+		"technique":              "static analysis: go/packages + go/types + go/ssa; gate reach sets (exact integer sets), abstract interpretation with loop summarisation over a bit-layout domain, effect index, dominance/def-use rules; nothing is executed",
 	}
 	if p.Exhaustive {
 		cov["exhaustive"] = true
